@@ -25,7 +25,7 @@ func (g *h06Gen) next(base int) int {
 	return r
 }
 
-const h06NumLeaves = 15
+const h06NumLeaves = 18
 
 func (g *h06Gen) gen(depth int) *h06Node {
 	k := g.next(6)
@@ -47,6 +47,8 @@ func (g *h06Gen) gen(depth int) *h06Node {
 
 var h06LeafText = [h06NumLeaves]string{
 	`a:x`, `b:y`, `.name:N`, `/s:1`, `.unit:U`, `.unit:V`, `*`, `a:(x OR z)`, `"a":"x"`, `.unit:(U OR V)`, `a:""`, `.fullname:"N/s=1"`, `c:(/x/ OR /q/)`, `c:(/q/ OR /r/)`, `c:/^x$/`,
+	// regexps on a key no result carries: the extracted value is the empty string
+	`d:/^$/`, `d:(y OR /^(q)?$/)`, `d:/./`,
 }
 
 func (n *h06Node) render(sb *strings.Builder) {
@@ -132,8 +134,10 @@ func (n *h06Node) ref(st *h06State, i int) bool {
 			return vndAnd(st.nm == 'N', st.s == '1')
 		case 12, 14: // regexp terms on the key c, whose value is the concrete "x"
 			return true
-		case 13:
+		case 13, 17:
 			return false
+		case 15, 16:
+			return true
 		}
 		panic("bad leaf")
 	case 1:
@@ -307,6 +311,14 @@ func h06HistoryTree(i int) *h06Node {
 		return h06And(h06Not(h06Leaf(4)), h06Not(h06Leaf(5)))
 	case 7:
 		return h06Or(h06Not(h06Leaf(4)), h06Leaf(1))
+	case 8:
+		return h06Leaf(15) // d:/^$/ on results without the key d
+	case 9:
+		return h06And(h06Not(h06Leaf(16)), h06Leaf(4))
+	case 10:
+		return h06Or(h06Leaf(17), h06Leaf(5))
+	case 11:
+		return h06And(h06Leaf(16), h06Not(h06Leaf(5)))
 	}
 	g := &h06Gen{idx: uint64(i)*0x9E3779B97F4A7C15 + 0x7654321}
 	return g.gen(2)
